@@ -91,4 +91,45 @@ class HandlerSubs:
         return h
 
 
-PARTS = [Core, HandlerSubs]
+class QueryResults:
+    """query subscriptions (core API and sdv Subscribe) by principals with partial and expiring scopes: no response
+    may carry the value of a signal its subscriber cannot read (the query family of C12; here only the
+    non-disclosure clause is judged, the SQL reading is C12's subject)"""
+    FAM = 16
+
+    @staticmethod
+    def generate(rng, tier):
+        from .. import query as Q
+        n = 120 if tier == "quick" else 3000
+        return [("q%d" % i, Q.gen_case(rng)) for i in range(n)]
+
+    @staticmethod
+    def compare(lines, m, i):
+        from . import c12
+        return c12.Main.compare(lines, m, i)
+
+    @staticmethod
+    def monitor(lines, out):
+        from .. import query as Q
+        return Q.disclosure_monitor(lines, out)
+
+    @staticmethod
+    def nontrivial(lines, out):
+        from . import c12
+        return c12.Main.nontrivial(lines, out)
+
+    @staticmethod
+    def histogram(lines, out):
+        return []
+
+    @staticmethod
+    def pretty(lines):
+        from .. import query as Q
+        return Q.pretty(lines)
+
+    @staticmethod
+    def neighbours(lines, rng):
+        return []
+
+
+PARTS = [Core, HandlerSubs, QueryResults]
